@@ -422,13 +422,15 @@ Lemma poll_output_abs fuel r w p r' w' : poll_output fuel r w = (p, r', w') -> p
     pinv (rsp r') /\ rwriteable r' = rwriteable r /\
     match p with
     | PReady (inl _) => output_buffer (rsp r') = []
-    | PReady (inr k) => k = EK_WriteZero \/ k = EK_Transport
+    | PReady (inr k) => fault_of k (wscript w)
     | PWake => True
     | PBlock => False
     end.
 Proof.
   intros E [HRI Hinv] Hf.
   destruct (poll_output_spec fuel r w p r' w' E) as (n & Hn & Hlog & Hsame & Hsuf & Hout & Hsp & Hsb & _ & Hwr & Hri & Hp).
+  pose proof (poll_output_post fuel r w) as PP. rewrite E in PP. unfold po_post in PP. cbv zeta in PP.
+  destruct PP as (n' & _ & _ & _ & _ & _ & PP).
   cbv zeta in *. exists (take n (output_buffer (rsp r))).
   pose proof (sp_same_abs _ _ _ Hsp Hout) as HA.
   destruct (sp_same_views _ _ Hsp) as (_ & _ & V3 & _ & V5 & V6).
@@ -438,10 +440,14 @@ Proof.
   split; [split; [apply Hri; exact HRI|rewrite HA; exact Hinv]|]. split; [exact Hwr|].
   destruct p as [[u|k]| |].
   - apply Hp.
-  - destruct Hp as [[_ Hp]|(_ & _ & Hp & _)]; [lia|exact Hp].
+  - destruct PP as [->|(_ & _ & PP)]; [|exact PP]. exfalso.
+    destruct Hp as [[_ Hp]|(_ & _ & [Hp|[Hp|Hp]] & _)]; [lia|vm_compute in Hp; discriminate Hp..].
   - exact I.
   - exact Hp.
 Qed.
+
+Lemma poll_output_ab fuel r w p r' w' : poll_output fuel r w = (p, r', w') -> raborted r' = raborted r.
+Proof. intros E. pose proof (poll_output_raborted fuel r w) as H. rewrite E in H. exact H. Qed.
 
 Lemma same_but_io_remaining w w' : same_but_io w w' -> remaining w' = remaining w.
 Proof. intros (_ & H & _). unfold remaining. rewrite H. reflexivity. Qed.
@@ -467,7 +473,9 @@ Record acct (new : bytes) (r : rstate) (w : world) (dl : bytes) (r' : rstate) (w
                     R maxc (abs (rsp r)) (new ++ remaining w) = fl ++ R maxc (abs (rsp r')) (remaining w');
   (* streams later in the role's order than the active one are not touched *)
   ac_F : forall sg, later_stream (abs (rsp r)) sg ->
-           F (Some sg) (abs (rsp r)) (new ++ remaining w) = F (Some sg) (abs (rsp r')) (remaining w')
+           F (Some sg) (abs (rsp r)) (new ++ remaining w) = F (Some sg) (abs (rsp r')) (remaining w');
+  (* Request.aborted, once set, stays set *)
+  ac_ab : raborted r = true -> raborted r' = true
 }.
 
 Lemma acct_refl r w : pinv (rsp r) -> acct [] r w [] r w.
@@ -476,6 +484,7 @@ Proof.
   - exists []. reflexivity.
   - apply suffix_refl.
   - exists []. rewrite app_nil_r. split; reflexivity.
+  - exact (fun x => x).
 Qed.
 
 Lemma acct_bytes_ok new r w dl r' w' : acct new r w dl r' w' -> bytes_ok (remaining w) -> bytes_ok (remaining w').
@@ -509,6 +518,7 @@ Proof.
   - intros sg Hls. rewrite (ac_F _ _ _ _ _ _ A sg Hls), Hb. apply (ac_F _ _ _ _ _ _ B sg).
     unfold later_stream in *. cbn [abs a_stream a_req] in *.
     rewrite (ac_stream _ _ _ _ _ _ A), (ac_req _ _ _ _ _ _ A). exact Hls.
+  - intros H. apply (ac_ab _ _ _ _ _ _ B). apply (ac_ab _ _ _ _ _ _ A). exact H.
 Qed.
 
 Lemma acct_trans0 r w d1 r1 w1 d2 r2 w2 :
@@ -530,7 +540,7 @@ Proof.
 Qed.
 
 (* the outcome of the parsing loop of poll_input *)
-Definition il_case (dest : option N) (dl : bytes) (r : rstate) (p : Conn.pres (N * bytes + N)) (r' : rstate) (w' : world) : Prop :=
+Definition il_case (dest : option N) (dl : bytes) (r : rstate) (w : world) (p : Conn.pres (N * bytes + N)) (r' : rstate) (w' : world) : Prop :=
   match p with
   | PReady (inl (n, b)) =>
       dl = b /\ (n = 0 -> eos (abs (rsp r'))) /\
@@ -541,23 +551,73 @@ Definition il_case (dest : option N) (dl : bytes) (r : rstate) (p : Conn.pres (N
   | PReady (inr k) =>
       (* a parser error: the bytes already copied into the caller's buffer by this call are dropped *)
       (exists e, k = perr_kind e /\ err_at (abs (rsp r')) e /\ (e = EAbortRequest \/ exists v, e = EUnknownVersion v) /\
-                 (dest = None -> dl = []) /\ (forall c, dest = Some c -> len dl <= c)) \/
+                 (dest = None -> dl = []) /\ (forall c, dest = Some c -> len dl <= c) /\
+                 (* Request.aborted records that the parser reported AbortRequest *)
+                 raborted r' = raborted r || is_abort e) \/
       (* the transport reported end of file (or the parser buffer is full) *)
       (dl = [] /\ k = EK_UnexpectedEof /\ output_buffer (rsp r') = [] /\
-         (remaining w' = [] \/ sinput_space (rsp r') = 0)) \/
-      (dl = [] /\ (k = EK_WriteZero \/ k = EK_Transport))
+         (remaining w' = [] \/ sinput_space (rsp r') = 0) /\ raborted r' = raborted r) \/
+      (* an I/O error: a failed read is of kind Transport; every other kind is a failed write of the flush, and
+         the write script says which *)
+      (dl = [] /\ (k = EK_WriteZero \/ k = EK_Transport \/ k = EK_Aborted) /\ raborted r' = raborted r /\
+         (k <> EK_Transport -> fault_of k (wscript w)))
   | PWake => dl = [] /\ stream_buffer (rsp r') = stream_buffer (rsp r)
   | PBlock => dl = [] /\ output_buffer (rsp r') = [] /\ stream_buffer (rsp r') = stream_buffer (rsp r) /\ gated w' /\
               (* nothing is owed for the bytes received so far *)
               (dest <> Some 0 -> R maxc (abs (rsp r')) [] = [])
   end.
 
+(* Request.aborted along poll_input: it changes only when the parser reports AbortRequest (then it is set and the
+   call returns the error kind Aborted); everything else preserves it *)
+Lemma input_loop_raborted : forall fuel dest new r w p r' w',
+  input_loop maxc fuel dest new r w = (p, r', w') ->
+  raborted r' = raborted r \/ (raborted r' = true /\ p = PReady (inr EK_Aborted)).
+Proof.
+  induction fuel as [|f IH]; intros dest new r w p r' w' E.
+  { cbn [input_loop] in E. injection E as <- <- <-. left. reflexivity. }
+  cbn [input_loop] in E.
+  destruct (sparse maxc (rsp r) new dest) as [p1 s|p1 e s|n].
+  - destruct (s_end s || (0 <? s_stream s)).
+    { injection E as <- <- <-. left. destruct (_ && _); reflexivity. }
+    destruct (poll_output (S f) (mkR (compress p1) (rwriteable r) (rlock r) (raborted r)) w) as [[po r3] w0] eqn:EPO.
+    pose proof (poll_output_ab _ _ _ _ _ _ EPO) as Pab. cbn [raborted] in Pab.
+    destruct po as [[u|k]| |]; try (injection E as <- <- <-; left; exact Pab).
+    destruct (t_poll_read (sinput_space (rsp r3)) w0) as [[[b|k]| |] w1]; try (injection E as <- <- <-; left; exact Pab).
+    destruct b as [|x b']; [injection E as <- <- <-; left; exact Pab|].
+    apply IH in E. rewrite Pab in E. exact E.
+  - injection E as <- <- <-. cbn [raborted]. destruct e; cbn [is_abort perr_kind]; try (left; apply orb_false_r).
+    right. split; [apply orb_true_r|reflexivity].
+  - injection E as <- <- <-. left. reflexivity.
+Qed.
+
+Lemma poll_input_raborted fuel dest r w p r' w' : poll_input maxc fuel dest r w = (p, r', w') ->
+  raborted r' = raborted r \/ (raborted r' = true /\ p = PReady (inr EK_Aborted)).
+Proof.
+  unfold poll_input. cbv zeta. intros E.
+  assert (EMPTY : (match poll_output fuel r w with
+     | (PReady (inl _), r1, w1) => input_loop maxc fuel dest [] r1 w1
+     | (PReady (inr k), r1, w1) => (PReady (inr k), r1, w1)
+     | (PWake, r1, w1) => (PWake, r1, w1)
+     | (PBlock, r1, w1) => (PBlock, r1, w1)
+     end) = (p, r', w') -> raborted r' = raborted r \/ (raborted r' = true /\ p = PReady (inr EK_Aborted))).
+  { intros E1. destruct (poll_output fuel r w) as [[po r1] w1] eqn:EPO.
+    pose proof (poll_output_ab _ _ _ _ _ _ EPO) as Pab.
+    destruct po as [[u|k]| |]; try (injection E1 as <- <- <-; left; exact Pab).
+    apply input_loop_raborted in E1. rewrite Pab in E1. exact E1. }
+  destruct dest as [[|pc]|]; destruct (stream_buffer (rsp r)) as [|x sb];
+    try (apply EMPTY; exact E); injection E as <- <- <-; left; reflexivity.
+Qed.
+
+Corollary poll_input_raborted_mono fuel dest r w p r' w' : poll_input maxc fuel dest r w = (p, r', w') ->
+  raborted r = true -> raborted r' = true.
+Proof. intros E H. destruct (poll_input_raborted _ _ _ _ _ _ _ E) as [H1|[H1 _]]; [rewrite H1; exact H|exact H1]. Qed.
+
 Theorem input_loop_reads : forall fuel dest new r w p r' w',
   pinv (rsp r) -> bytes_ok (remaining w) -> bytes_ok new -> len new <= sinput_space (rsp r) ->
   (dest <> None -> stream_buffer (rsp r) = []) ->
   (length (wscript w) + length (remaining w) + 2 <= fuel)%nat ->
   input_loop maxc fuel dest new r w = (p, r', w') ->
-  exists dl, acct new r w dl r' w' /\ il_case dest dl r p r' w' /\
+  exists dl, acct new r w dl r' w' /\ il_case dest dl r w p r' w' /\
              rwriteable r' = rwriteable r || (is_inl p && is_final_stream r).
 Proof.
   induction fuel as [|f IH]; intros dest new r w p r' w' Hinv Hrem Hnew Hfit Hd Hf E; [lia|].
@@ -576,19 +636,20 @@ Proof.
         + apply (so_K _ _ _ _ _ SO).
         + exists []. rewrite app_nil_r. split; [reflexivity|apply (so_R _ _ _ _ _ SO)].
         + intros sg Hls. apply (so_F _ _ _ _ _ SO sg _ Hls).
-      - cbn [il_case rsp]. left. exists e. split; [reflexivity|]. split; [exact He|]. split; [exact Hk|].
-        split; [intros Hn; apply (so_none _ _ _ _ _ SO Hn)|intros c Hc; apply (so_some _ _ _ _ _ SO c Hc)].
+        + cbn [raborted]. intros ->. reflexivity.
+      - cbn [il_case rsp raborted]. left. exists e. split; [reflexivity|]. split; [exact He|]. split; [exact Hk|].
+        split; [intros Hn; apply (so_none _ _ _ _ _ SO Hn)|split; [intros c Hc; apply (so_some _ _ _ _ _ SO c Hc)|reflexivity]].
       - cbn [rwriteable is_inl andb]. rewrite orb_false_r. reflexivity. }
   destruct SS as (SO & Hend).
-  assert (Hfin : forall wr lk, is_final_stream (mkR p1 wr lk) = is_final_stream r).
-  { intros wr lk. apply is_final_stream_eq; cbn [rsp]; apply SO. }
+  assert (Hfin : forall wr lk ab, is_final_stream (mkR p1 wr lk ab) = is_final_stream r).
+  { intros wr lk ab. apply is_final_stream_eq; cbn [rsp]; apply SO. }
   destruct (s_end s || (0 <? s_stream s)) eqn:Edone.
   { (* the parse reported stream data or the end of the stream *)
-    remember (if negb (rwriteable (mkR p1 (rwriteable r) (rlock r))) && is_final_stream (mkR p1 (rwriteable r) (rlock r))
-               then mkR p1 true (rlock r) else mkR p1 (rwriteable r) (rlock r)) as r2 eqn:Er2.
-    assert (H2 : rsp r2 = p1 /\ rwriteable r2 = rwriteable r || is_final_stream r).
-    { subst r2. cbn [rwriteable]. rewrite Hfin. destruct (rwriteable r), (is_final_stream r); cbn [negb andb orb rsp rwriteable]; split; reflexivity. }
-    destruct H2 as [H2 H3]. injection E as <- <- <-. exists (s_dest s). split; [|split].
+    remember (if negb (rwriteable (mkR p1 (rwriteable r) (rlock r) (raborted r))) && is_final_stream (mkR p1 (rwriteable r) (rlock r) (raborted r))
+               then mkR p1 true (rlock r) (raborted r) else mkR p1 (rwriteable r) (rlock r) (raborted r)) as r2 eqn:Er2.
+    assert (H2 : rsp r2 = p1 /\ rwriteable r2 = rwriteable r || is_final_stream r /\ raborted r2 = raborted r).
+    { subst r2. cbn [rwriteable]. rewrite Hfin. destruct (rwriteable r), (is_final_stream r); cbn [negb andb orb rsp rwriteable raborted]; repeat split; reflexivity. }
+    destruct H2 as (H2 & H3 & H4). injection E as <- <- <-. exists (s_dest s). split; [|split].
     - constructor; rewrite ?H2.
       + apply SO.
       + apply SO.
@@ -599,6 +660,7 @@ Proof.
       + apply (so_K _ _ _ _ _ SO).
       + exists []. rewrite app_nil_r. split; [reflexivity|apply (so_R _ _ _ _ _ SO)].
       + intros sg Hls. apply (so_F _ _ _ _ _ SO sg _ Hls).
+      + rewrite H4. exact (fun x => x).
     - cbn [il_case]. rewrite H2. split; [reflexivity|]. split.
       + intros H0. apply Hend. rewrite H0 in Edone. change (0 <? 0) with false in Edone. rewrite orb_false_r in Edone. exact Edone.
       + destruct dest as [c|].
@@ -620,13 +682,14 @@ Proof.
   pose proof (so_inv _ _ _ _ _ SO) as [RI1 I1].
   destruct (compress_views p1 RI1) as (V1 & V2 & V3 & V4 & V5 & V6).
   pose proof (compress_abs p1 RI1) as CA.
-  set (r2 := mkR (compress p1) (rwriteable r) (rlock r)) in E.
+  set (r2 := mkR (compress p1) (rwriteable r) (rlock r) (raborted r)) in E.
   assert (Hinv2 : pinv (rsp r2)).
   { split; [exact V1|]. cbn [r2 rsp]. rewrite CA. apply compress_inv. exact I1. }
   destruct (poll_output (S f) r2 w) as [[po r3] w0] eqn:EPO.
   destruct (poll_output_abs _ _ _ _ _ _ EPO Hinv2 ltac:(lia))
     as (fl & P1 & P2 & P3 & P4 & P5 & P6 & P7 & P8 & P9 & P10 & P11 & P12).
   cbn [r2 rsp rwriteable] in P4, P5, P6, P7, P8, P9, P11.
+  pose proof (poll_output_ab _ _ _ _ _ _ EPO) as Pab. cbn [r2 raborted] in Pab.
   pose proof (same_but_io_remaining _ _ P2) as Prem.
   (* the account of the prefix: parse, compress, flush *)
   assert (PK : forall u, K (abs (rsp r)) (new ++ u) = K (abs (rsp r3)) u).
@@ -652,7 +715,8 @@ Proof.
     - rewrite Q4. exact Pev.
     - rewrite Q1, Prem. apply PK.
     - exists fl. split; [rewrite Q2; exact P1|]. rewrite Q1, Prem. apply PR.
-    - intros sg Hls. rewrite Q1, Prem. apply PF. exact Hls. }
+    - intros sg Hls. rewrite Q1, Prem. apply PF. exact Hls.
+    - rewrite Pab. exact (fun x => x). }
   assert (Hsb3 : stream_buffer (rsp r3) = stream_buffer (rsp r)) by (rewrite P6, V2; exact Hsb1).
   assert (Hwr3 : forall q, rwriteable r3 = rwriteable r || (false && q)) by (intros q; rewrite orb_false_r; exact P11).
   destruct po as [[u|k]| |].
@@ -664,7 +728,7 @@ Proof.
     + destruct T4 as (Tr & Tl & Tnil). destruct b as [|x b'].
       * injection E as <- <- <-. exists []. split; [|split; [|apply Hwr3]].
         -- apply PRE; [|exact T1|exact T2|exact Tev]. rewrite Tr. reflexivity.
-        -- cbn [il_case]. right. left. split; [reflexivity|]. split; [reflexivity|]. split; [exact P12|].
+        -- cbn [il_case]. right. left. split; [reflexivity|]. split; [reflexivity|]. split; [exact P12|]. split; [|exact Pab].
            destruct (Tnil eq_refl) as [H0|H0]; [right; exact H0|left].
            rewrite Tr in H0. exact H0.
       * assert (Hb : bytes_ok (x :: b' ++ remaining w1)) by (rewrite <- Prem, Tr in Hrem; exact Hrem).
@@ -676,11 +740,15 @@ Proof.
         destruct (IH dest (x :: b') r3 w1 p r' w' P10 (proj2 Hb) (proj1 Hb) Tl Hd3 Hf' E) as (dl & A & C & W).
         exists dl. split; [|split].
         -- change dl with ([] ++ dl). eapply acct_trans; [apply (PRE w0); reflexivity|exact Tr|exact T1|exact T2|exact Tev|exact A].
-        -- unfold il_case in *. destruct p as [[[n b]|k]| |]; try rewrite Hsb3 in C; exact C.
+        -- unfold il_case in *. destruct p as [[[n b]|k]| |]; try (rewrite Hsb3 in C; exact C).
+           rewrite Pab in C. destruct C as [C|[C|(C1 & C2 & C3 & C4)]]; [left; exact C|right; left; exact C|right; right].
+           split; [exact C1|]. split; [exact C2|]. split; [exact C3|]. intros Hk'.
+           eapply fault_of_suffix; [|apply C4; exact Hk']. rewrite T2. exact P3.
         -- rewrite W, P11. f_equal. f_equal. apply is_final_stream_eq; [rewrite P9; apply SO|rewrite P8; apply SO].
     + destruct T4 as [Tr Tk]. injection E as <- <- <-. exists []. split; [|split; [|apply Hwr3]].
       * apply PRE; assumption.
-      * cbn [il_case]. right. right. split; [reflexivity|]. right. exact Tk.
+      * cbn [il_case]. right. right. split; [reflexivity|]. split; [right; left; exact Tk|]. split; [exact Pab|].
+        intros Hne. contradiction.
     + injection E as <- <- <-. exists []. split; [|split; [|apply Hwr3]].
       * apply PRE; assumption.
       * cbn [il_case]. split; [reflexivity|exact Hsb3].
@@ -691,7 +759,8 @@ Proof.
         apply (sparse_quiet (rsp r) new dest p1 s Hinv Hnew Hfit Hd Hd0 ESP Eend Hz).
   - injection E as <- <- <-. exists []. split; [|split; [|apply Hwr3]].
     + apply PRE; reflexivity.
-    + cbn [il_case]. right. right. split; [reflexivity|exact P12].
+    + cbn [il_case]. right. right. split; [reflexivity|]. split; [eapply fault_of_kind; exact P12|]. split; [exact Pab|].
+      intros _. exact P12.
   - injection E as <- <- <-. exists []. split; [|split; [|apply Hwr3]].
     + apply PRE; reflexivity.
     + cbn [il_case]. split; [reflexivity|exact Hsb3].
@@ -708,7 +777,7 @@ Lemma poll_output_acct fuel r w p r1 w1 : poll_output fuel r w = (p, r1, w1) -> 
   (output_buffer (rsp r) = [] -> p = PReady (inl tt) /\ w1 = w /\ rsp r1 = rsp r) /\
   match p with
   | PReady (inl _) => output_buffer (rsp r1) = []
-  | PReady (inr k) => k = EK_WriteZero \/ k = EK_Transport
+  | PReady (inr k) => fault_of k (wscript w)
   | PWake => True
   | PBlock => False
   end.
@@ -727,6 +796,7 @@ Proof.
     + rewrite Prem, P5, K_set_out. reflexivity.
     + exists fl. split; [exact P1|]. rewrite Prem, P5. apply R_split. exact P4.
     + intros sg _. rewrite Prem, P5. reflexivity.
+    + rewrite (poll_output_ab _ _ _ _ _ _ E). exact (fun x => x).
   - intros e He. rewrite P5. exact He.
   - intros He. rewrite P5. exact He.
   - intros Ho. destruct fuel as [|f]; [lia|]. cbn [poll_output] in E. rewrite Ho in E.
@@ -741,7 +811,7 @@ Definition poll_parses (dest : option N) (r : rstate) : bool :=
   | _, _ :: _ => false
   end.
 
-Definition pi_case (dest : option N) (dl : bytes) (r : rstate) (p : Conn.pres (N * bytes + N)) (r' : rstate) (w' : world) : Prop :=
+Definition pi_case (dest : option N) (dl : bytes) (r : rstate) (w : world) (p : Conn.pres (N * bytes + N)) (r' : rstate) (w' : world) : Prop :=
   match p with
   | PReady (inl (n, b)) =>
       dl = b /\
@@ -751,18 +821,25 @@ Definition pi_case (dest : option N) (dl : bytes) (r : rstate) (p : Conn.pres (N
       end
   | PReady (inr k) =>
       (exists e, k = perr_kind e /\ err_at (abs (rsp r')) e /\ (e = EAbortRequest \/ exists v, e = EUnknownVersion v) /\
-                 (dest = None -> dl = []) /\ (forall c, dest = Some c -> len dl <= c)) \/
+                 (dest = None -> dl = []) /\ (forall c, dest = Some c -> len dl <= c) /\
+                 raborted r' = raborted r || is_abort e) \/
       (dl = [] /\ k = EK_UnexpectedEof /\ output_buffer (rsp r') = [] /\
-         (remaining w' = [] \/ sinput_space (rsp r') = 0)) \/
-      (dl = [] /\ (k = EK_WriteZero \/ k = EK_Transport))
+         (remaining w' = [] \/ sinput_space (rsp r') = 0) /\ raborted r' = raborted r) \/
+      (dl = [] /\ (k = EK_WriteZero \/ k = EK_Transport \/ k = EK_Aborted) /\ raborted r' = raborted r /\
+         (k <> EK_Transport -> fault_of k (wscript w)))
   | PWake => dl = [] /\ stream_buffer (rsp r) = [] /\ stream_buffer (rsp r') = []
   | PBlock => dl = [] /\ output_buffer (rsp r') = [] /\ stream_buffer (rsp r) = [] /\ stream_buffer (rsp r') = [] /\ gated w' /\
               R maxc (abs (rsp r')) [] = []
   end.
 
-Lemma pi_case_transfer dest dl r1 r p r' w' : stream_buffer (rsp r1) = stream_buffer (rsp r) ->
-  pi_case dest dl r1 p r' w' -> pi_case dest dl r p r' w'.
-Proof. intros E. unfold pi_case. rewrite E. exact (fun H => H). Qed.
+Lemma pi_case_transfer dest dl r1 w1 r w p r' w' : stream_buffer (rsp r1) = stream_buffer (rsp r) ->
+  raborted r1 = raborted r -> suffix (wscript w1) (wscript w) ->
+  pi_case dest dl r1 w1 p r' w' -> pi_case dest dl r w p r' w'.
+Proof.
+  intros E Eab Hs. unfold pi_case. rewrite E, Eab. destruct p as [[[n b]|k]| |]; try exact (fun H => H).
+  intros [C|[C|(C1 & C2 & C3 & C4)]]; [left; exact C|right; left; exact C|right; right].
+  split; [exact C1|]. split; [exact C2|]. split; [exact C3|]. intros Hk. eapply fault_of_suffix; [exact Hs|apply C4; exact Hk].
+Qed.
 
 (* a zero-length read changes nothing at all *)
 Lemma poll_input_zero fuel r w : poll_input maxc fuel (Some 0) r w = (PReady (inl (0, [])), r, w).
@@ -772,7 +849,7 @@ Proof. unfold poll_input. destruct (stream_buffer (rsp r)); reflexivity. Qed.
 Theorem poll_input_reads fuel dest r w p r' w' :
   pinv (rsp r) -> bytes_ok (remaining w) -> (length (wscript w) + length (remaining w) + 2 <= fuel)%nat ->
   poll_input maxc fuel dest r w = (p, r', w') ->
-  exists dl, acct [] r w dl r' w' /\ pi_case dest dl r p r' w' /\
+  exists dl, acct [] r w dl r' w' /\ pi_case dest dl r w p r' w' /\
              rwriteable r' = rwriteable r || (poll_parses dest r && is_inl p && is_final_stream r).
 Proof.
   intros Hinv Hrem Hf E.
@@ -783,12 +860,13 @@ Proof.
      | (PWake, r1, w1) => (PWake, r1, w1)
      | (PBlock, r1, w1) => (PBlock, r1, w1)
      end) = (p, r', w') ->
-    exists dl, acct [] r w dl r' w' /\ pi_case dest dl r p r' w' /\
+    exists dl, acct [] r w dl r' w' /\ pi_case dest dl r w p r' w' /\
                rwriteable r' = rwriteable r || (poll_parses dest r && is_inl p && is_final_stream r)).
   { intros Esb Hpp E1. rewrite Hpp. cbn [andb].
     destruct (poll_output fuel r w) as [[po r1] w1] eqn:EPO.
     destruct (poll_output_acct _ _ _ _ _ _ EPO Hinv ltac:(lia)) as (A1 & Q1 & Q2 & Q3 & Q4 & _ & _ & _ & Q5).
     assert (NOINL : forall q, rwriteable r1 = rwriteable r || (false && q)) by (intros q; rewrite orb_false_r; exact Q4).
+    pose proof (poll_output_ab _ _ _ _ _ _ EPO) as Pab1.
     rewrite Esb in Q2.
     destruct po as [[u|k]| |].
     - destruct (acct_len _ _ _ _ _ _ A1) as [L1 L2].
@@ -800,13 +878,16 @@ Proof.
         * destruct C as (C1 & C2 & C3). split; [exact C1|]. destruct dest as [c|].
           -- destruct C3 as (C3 & C4 & C5). split; [exact C3|]. split; [exact C4|]. intros _ Hn. split; [apply C2; exact Hn|exact C5].
           -- exact C3.
-        * exact C.
+        * rewrite Pab1 in C. destruct C as [C|[C|(C1 & C2 & C3 & C4)]]; [left; exact C|right; left; exact C|right; right].
+          split; [exact C1|]. split; [exact C2|]. split; [exact C3|]. intros Hk'.
+          eapply fault_of_suffix; [apply (ac_ws _ _ _ _ _ _ A1)|apply C4; exact Hk'].
         * destruct C as (C1 & C2). split; [exact C1|]. split; [reflexivity|exact C2].
         * destruct C as (C1 & C2 & C3 & C4 & C5). split; [exact C1|]. split; [exact C2|]. split; [reflexivity|]. split; [exact C3|].
           split; [exact C4|]. apply C5. intros ->. unfold poll_parses in Hpp. discriminate Hpp.
       + rewrite W, Q4. f_equal. f_equal. apply is_final_stream_eq; [apply (ac_req _ _ _ _ _ _ A1)|apply (ac_stream _ _ _ _ _ _ A1)].
     - injection E1 as <- <- <-. exists []. split; [exact A1|]. split; [|apply NOINL].
-      cbn [pi_case]. right. right. split; [reflexivity|exact Q5].
+      cbn [pi_case]. right. right. split; [reflexivity|]. split; [eapply fault_of_kind; exact Q5|]. split; [exact Pab1|].
+      intros _. exact Q5.
     - injection E1 as <- <- <-. exists []. split; [exact A1|]. split; [|apply NOINL].
       cbn [pi_case]. split; [reflexivity|]. split; [exact Esb|exact Q2].
     - contradiction. }
@@ -825,7 +906,7 @@ Proof.
       change (a_parsed (abs (rsp r))) with (stream_buffer (rsp r)) in CK. rewrite Esb in CK.
       replace (N.min n (len (x :: sb))) with n in CK by lia.
       exists (take n (x :: sb)). split; [|split].
-      * constructor; cbn [rsp app].
+      * constructor; cbn [rsp app raborted]; [| | | | | | | | |exact (fun x => x)].
         -- split; [apply consume_stream_RI; exact HRI|rewrite CA; apply consume_stream_inv; exact HI].
         -- reflexivity.
         -- reflexivity.
@@ -851,7 +932,7 @@ Proof. intros E. unfold poll_parses. rewrite E. reflexivity. Qed.
 Definition ai_post (dest : option N) (r : rstate) (w : world) (x : res ((N * bytes + N) * rstate)) : Prop :=
   match x with
   | Ok (res, r') w' =>
-      exists dl, acct [] r w dl r' w' /\ pi_case dest dl r (PReady res) r' w' /\
+      exists dl, acct [] r w dl r' w' /\ pi_case dest dl r w (PReady res) r' w' /\
                  rwriteable r' = rwriteable r || (poll_parses dest r && is_inl (PReady res) && is_final_stream r)
   | Halt o w' =>
       (* the state of the Request at the moment the task stopped *)
@@ -873,8 +954,9 @@ Proof.
               ltac:(rewrite io_fuel_remaining; lia) EP) as (dl & A & C & W).
   assert (RETRY : forall w1', remaining w1' = remaining w1 -> wlog w1' = wlog w1 -> wscript w1' = wscript w1 ->
             events w1' = events w1 -> dl = [] -> stream_buffer (rsp r) = [] -> stream_buffer (rsp r1) = [] -> is_inl p = false ->
+            raborted r1 = raborted r ->
             ai_post dest r w (await_input maxc f dest r1 w1')).
-  { intros w1' Q1 Q2 Q3 Q4 -> S0 S1 Hp.
+  { intros w1' Q1 Q2 Q3 Q4 -> S0 S1 Hp Eab.
     assert (Esb : stream_buffer (rsp r1) = stream_buffer (rsp r)) by (rewrite S0, S1; reflexivity).
     assert (Ewr : rwriteable r1 = rwriteable r) by (rewrite W, Hp, andb_false_r, orb_false_r; reflexivity).
     pose proof (acct_world _ _ _ _ _ _ w1' A Q1 Q2 Q3 Q4) as A'.
@@ -882,7 +964,7 @@ Proof.
     destruct (await_input maxc f dest r1 w1') as [[res r2] w2|o w2]; cbn [ai_post] in *.
     - destruct IH as (dl2 & A2 & C2 & W2). exists dl2.
       split; [change dl2 with ([] ++ dl2); eapply acct_trans0; eassumption|].
-      split; [apply (pi_case_transfer dest dl2 r1 r _ _ _ Esb C2)|].
+      split; [apply (pi_case_transfer dest dl2 r1 w1' r w _ _ _ Esb Eab ltac:(rewrite Q3; apply (ac_ws _ _ _ _ _ _ A)) C2)|].
       rewrite W2, Ewr, (poll_parses_eq dest r1 r Esb). f_equal. f_equal.
       apply is_final_stream_eq; [apply (ac_req _ _ _ _ _ _ A)|apply (ac_stream _ _ _ _ _ _ A)].
     - destruct IH as (r2 & A2 & W2 & S2 & O2 & D2). exists r2.
@@ -890,8 +972,11 @@ Proof.
       split; [congruence|]. split; [congruence|]. split; assumption. }
   destruct p as [x| |].
   - cbn [ai_post]. exists dl. split; [exact A|]. split; [exact C|exact W].
-  - unfold on_wake. cbn [andb]. destruct C as (C1 & C2 & C3). apply RETRY; try reflexivity; assumption.
+  - unfold on_wake. cbn [andb]. destruct C as (C1 & C2 & C3).
+    destruct (poll_input_raborted _ _ _ _ _ _ _ EP) as [Hab|[_ Hab]]; [|discriminate Hab].
+    apply RETRY; try reflexivity; assumption.
   - destruct C as (C1 & C2 & C3 & C4 & C5 & C6). unfold on_block.
+    destruct (poll_input_raborted _ _ _ _ _ _ _ EP) as [Hab|[_ Hab]]; [|discriminate Hab].
     destruct (negb (stop_at w1 =? 0) && negb (stopped w1)).
     + apply RETRY; try reflexivity; assumption.
     + cbn [ai_post]. exists r1. subst dl. split; [exact A|].
@@ -1013,7 +1098,7 @@ Theorem poll_input_sticky fuel dest r w p r' w' e :
   remaining w' = remaining w /\ rscript w' = rscript w /\ pinv (rsp r') /\ err_at (abs (rsp r')) e /\
   (poll_parses dest r = true ->
      match p with
-     | PReady (inr k) => k = perr_kind e \/ ((k = EK_WriteZero \/ k = EK_Transport) /\ output_buffer (rsp r) <> [])
+     | PReady (inr k) => k = perr_kind e \/ (fault_of k (wscript w) /\ output_buffer (rsp r) <> [])
      | PWake => output_buffer (rsp r) <> []
      | _ => False
      end) /\
@@ -1030,7 +1115,7 @@ Proof.
      end) = (p, r', w') ->
     remaining w' = remaining w /\ rscript w' = rscript w /\ pinv (rsp r') /\ err_at (abs (rsp r')) e /\
     match p with
-    | PReady (inr k) => k = perr_kind e \/ ((k = EK_WriteZero \/ k = EK_Transport) /\ output_buffer (rsp r) <> [])
+    | PReady (inr k) => k = perr_kind e \/ (fault_of k (wscript w) /\ output_buffer (rsp r) <> [])
     | PWake => output_buffer (rsp r) <> []
     | _ => False
     end /\
@@ -1093,7 +1178,7 @@ Theorem poll_input_eof fuel c r w p r' w' :
   at_term (abs (rsp r')) = true /\ stream_buffer (rsp r') = [] /\
   match p with
   | PReady (inl (n, b)) => n = 0 /\ b = []
-  | PReady (inr k) => (k = EK_WriteZero \/ k = EK_Transport) /\ output_buffer (rsp r) <> []
+  | PReady (inr k) => fault_of k (wscript w) /\ output_buffer (rsp r) <> []
   | PWake => output_buffer (rsp r) <> []
   | PBlock => False
   end /\
@@ -1113,8 +1198,8 @@ Proof.
     destruct (sparse_at_term (rsp r1) (Some (N.pos pc)) (ac_inv _ _ _ _ _ _ A1) ltac:(intros _; exact Q2) Ht1)
       as (p2 & s & ES & I2 & A2 & S2 & E1 & E2 & E3 & E4).
     rewrite ES, E1 in E. cbn [orb] in E.
-    remember (if negb (rwriteable (mkR p2 (rwriteable r1) (rlock r1))) && is_final_stream (mkR p2 (rwriteable r1) (rlock r1))
-              then mkR p2 true (rlock r1) else mkR p2 (rwriteable r1) (rlock r1)) as r2 eqn:Er2.
+    remember (if negb (rwriteable (mkR p2 (rwriteable r1) (rlock r1) (raborted r1))) && is_final_stream (mkR p2 (rwriteable r1) (rlock r1) (raborted r1))
+              then mkR p2 true (rlock r1) (raborted r1) else mkR p2 (rwriteable r1) (rlock r1) (raborted r1)) as r2 eqn:Er2.
     assert (H2 : rsp r2 = p2) by (subst r2; destruct (_ && _); reflexivity).
     injection E as <- <- <-. rewrite H2, E2, E3.
     split; [exact Q1|]. split; [exact Hrs|]. split; [exact I2|]. split; [rewrite A2; exact Ht1|].
@@ -1147,17 +1232,46 @@ Qed.
 Lemma perr_kind_aborted e : perr_kind e = EK_Aborted <-> e = EAbortRequest.
 Proof. split; [destruct e; cbn [perr_kind]; intros H; try discriminate H; reflexivity|intros ->; reflexivity]. Qed.
 
+(* (before the transport could fail with the kind ConnectionAborted this read
+     poll_input ... = (PReady (inr EK_Aborted), r', w') -> err_at (abs (rsp r')) EAbortRequest;
+   that is false now: a failing flush whose transport error has the kind ConnectionAborted gives the same result.
+   The two sources are told apart by Request.aborted: the parser error sets it, the flush error leaves it alone) *)
 Corollary poll_input_aborted fuel dest r w r' w' :
   pinv (rsp r) -> bytes_ok (remaining w) -> (length (wscript w) + length (remaining w) + 2 <= fuel)%nat ->
-  poll_input maxc fuel dest r w = (PReady (inr EK_Aborted), r', w') -> err_at (abs (rsp r')) EAbortRequest.
+  poll_input maxc fuel dest r w = (PReady (inr EK_Aborted), r', w') ->
+  (err_at (abs (rsp r')) EAbortRequest /\ raborted r' = true) \/
+  (fault_of EK_Aborted (wscript w) /\ raborted r' = raborted r).
 Proof.
   intros Hinv Hrem Hf E. destruct (poll_input_reads _ _ _ _ _ _ _ Hinv Hrem Hf E) as (dl & A & C & _).
-  cbn [pi_case] in C. destruct C as [(e & C1 & C2 & C3 & _)|[(_ & C1 & _)|(_ & [C1|C1])]]; try discriminate C1.
-  symmetry in C1. apply perr_kind_aborted in C1. subst e. exact C2.
+  cbn [pi_case] in C. destruct C as [(e & C1 & C2 & _ & _ & _ & C6)|[(_ & C1 & _)|(_ & _ & C3 & C4)]]; try discriminate C1.
+  - symmetry in C1. apply perr_kind_aborted in C1. subst e. left. split; [exact C2|]. rewrite C6. apply orb_true_r.
+  - right. split; [apply C4; discriminate|exact C3].
+Qed.
+
+(* on a transport whose writes do not fail the old statement holds: Aborted is reported exactly for the parser error
+   AbortRequest, and the request is marked aborted *)
+Corollary poll_input_aborted_no_fault fuel dest r w r' w' :
+  pinv (rsp r) -> bytes_ok (remaining w) -> (length (wscript w) + length (remaining w) + 2 <= fuel)%nat ->
+  no_fault (wscript w) ->
+  poll_input maxc fuel dest r w = (PReady (inr EK_Aborted), r', w') ->
+  err_at (abs (rsp r')) EAbortRequest /\ raborted r' = true.
+Proof.
+  intros Hinv Hrem Hf Hnf E. destruct (poll_input_aborted _ _ _ _ _ _ Hinv Hrem Hf E) as [H|[H _]]; [exact H|].
+  exfalso. eapply no_fault_not_fault; eassumption.
+Qed.
+
+(* the converse direction for the flag: a poll that changes Request.aborted returned the parser's AbortRequest *)
+Corollary poll_input_sets_aborted fuel dest r w p r' w' :
+  pinv (rsp r) -> bytes_ok (remaining w) -> (length (wscript w) + length (remaining w) + 2 <= fuel)%nat ->
+  poll_input maxc fuel dest r w = (p, r', w') -> raborted r = false -> raborted r' = true ->
+  p = PReady (inr EK_Aborted) /\ err_at (abs (rsp r')) EAbortRequest.
+Proof.
+  intros Hinv Hrem Hf E H0 H1. destruct (poll_input_raborted _ _ _ _ _ _ _ E) as [H|[_ H]]; [congruence|].
+  split; [exact H|]. subst p. destruct (poll_input_aborted _ _ _ _ _ _ Hinv Hrem Hf E) as [[H _]|[_ H]]; [exact H|congruence].
 Qed.
 
 Lemma input_loop_err f dest new r w p' e s : sparse maxc (rsp r) new dest = StErr p' e s ->
-  input_loop maxc (S f) dest new r w = (PReady (inr (perr_kind e)), mkR p' (rwriteable r) (rlock r), w).
+  input_loop maxc (S f) dest new r w = (PReady (inr (perr_kind e)), mkR p' (rwriteable r) (rlock r) (raborted r || is_abort e), w).
 Proof. intros E. cbn [input_loop]. rewrite E. reflexivity. Qed.
 
 (* record_boundary treats AbortRequest as "a record boundary was reached, go on": the parser stands at the
@@ -1168,7 +1282,7 @@ Proof. intros (H1 & H2 & _). cbn [abs a_prem a_pad] in H1, H2. unfold is_record_
 Theorem boundary_loop_abort f new r w p' s :
   pinv (rsp r) -> bytes_ok new -> len new <= sinput_space (rsp r) ->
   sparse maxc (rsp r) new None = StErr p' EAbortRequest s ->
-  boundary_loop maxc (S f) new r w = Ok (None, mkR p' (rwriteable r) (rlock r)) w /\ err_at (abs p') EAbortRequest.
+  boundary_loop maxc (S f) new r w = Ok (None, mkR p' (rwriteable r) (rlock r) (raborted r)) w /\ err_at (abs p') EAbortRequest.
 Proof.
   intros Hinv Hnew Hfit E.
   pose proof (sparse_step (rsp r) new None Hinv Hnew Hfit ltac:(intros H; contradiction)) as SS. rewrite E in SS.
@@ -1293,7 +1407,7 @@ Theorem do_writeable_gate r w e r' w' :
      let last := last_opt (r_role (sreq (rsp r))) in
      exists p1, set_stream (rsp r) last = SetOk p1 /\
        stream (rsp r') = last /\ sreq (rsp r') = sreq (rsp r) /\ is_final_stream r' = true /\
-       acct [] (mkR p1 false (rlock r)) w [] r' w' /\
+       acct [] (mkR p1 false (rlock r) (raborted r)) w [] r' w' /\
        match e with
        | None => rwriteable r' = true \/
                  (rwriteable r' = false /\ stream (rsp r) = last /\ stream_buffer (rsp r) <> [] /\ r' = r /\ w' = w)
@@ -1309,7 +1423,7 @@ Proof.
   destruct (set_stream (rsp r) last) as [p1| |] eqn:ES; try discriminate E.
   exists p1. split; [reflexivity|].
   destruct (set_stream_step _ _ _ Hinv ES) as (I1 & Q1 & S1 & _ & _ & _ & _ & _ & SAME & DIFF).
-  set (r1 := mkR p1 false (rlock r)) in *.
+  set (r1 := mkR p1 false (rlock r) (raborted r)) in *.
   assert (Hfin1 : is_final_stream r1 = true).
   { unfold is_final_stream. cbn [r1 rsp]. rewrite Q1, S1. unfold last. rewrite last_is_final. reflexivity. }
   pose proof (await_input_reads (io_fuel w 0) None r1 w I1 Hrem) as AI.
@@ -1323,7 +1437,7 @@ Proof.
     + left. rewrite W. unfold poll_parses. cbn [r1 rsp rwriteable is_inl]. rewrite Esb, Hfin1. reflexivity.
     + right. destruct (optN_eqb last (stream (rsp r))) eqn:Heq.
       * specialize (SAME eq_refl). subst p1.
-        assert (Er : r1 = r) by (subst r1; destruct r as [p0 wr lk]; cbn [rsp rwriteable rlock] in *; subst wr; reflexivity).
+        assert (Er : r1 = r) by (subst r1; destruct r as [p0 wr lk ab]; cbn [rsp rwriteable rlock raborted] in *; subst wr; reflexivity).
         rewrite Er in EA. rewrite await_input_none_buffered in EA; [|rewrite io_fuel_remaining; lia|rewrite Esb; discriminate].
         injection EA as _ <- <-. split; [exact Ewr|]. split; [symmetry; apply optN_eqb_eq; exact Heq|].
         split; [rewrite Esb; discriminate|]. split; reflexivity.
@@ -1345,7 +1459,7 @@ Proof.
   change (match rev (role_input_streams (r_role (sreq (rsp r)))) with x :: _ => Some x | [] => None end)
     with (last_opt (r_role (sreq (rsp r)))).
   rewrite <- Hs. rewrite (set_stream_same _ (pinv_stream_ok _ Hinv)).
-  assert (Er : mkR (rsp r) false (rlock r) = r) by (destruct r as [p0 wr lk]; cbn [rsp rwriteable rlock] in *; subst wr; reflexivity).
+  assert (Er : mkR (rsp r) false (rlock r) (raborted r) = r) by (destruct r as [p0 wr lk ab]; cbn [rsp rwriteable rlock raborted] in *; subst wr; reflexivity).
   rewrite Er. rewrite await_input_none_buffered; [reflexivity|rewrite io_fuel_remaining; lia|exact Hsb].
 Qed.
 
@@ -1372,11 +1486,11 @@ Qed.
 
 (* Parser::consume_stream as an operation of the handler (after fill_buf) *)
 Lemma consume_acct r w c wr lk : pinv (rsp r) ->
-  acct [] r w (take (N.min c (len (stream_buffer (rsp r)))) (stream_buffer (rsp r))) (mkR (consume_stream (rsp r) c) wr lk) w.
+  acct [] r w (take (N.min c (len (stream_buffer (rsp r)))) (stream_buffer (rsp r))) (mkR (consume_stream (rsp r) c) wr lk (raborted r)) w.
 Proof.
   intros [HRI HI]. pose proof (consume_stream_abs (rsp r) c HRI) as CA.
   destruct (consume_stream_law maxc (abs (rsp r)) c (remaining w)) as (CK & CR & CF).
-  constructor; cbn [rsp app].
+  constructor; cbn [rsp app raborted]; [| | | | | | | | |exact (fun x => x)].
   - split; [apply consume_stream_RI; exact HRI|rewrite CA; apply consume_stream_inv; exact HI].
   - reflexivity.
   - reflexivity.
@@ -1394,7 +1508,7 @@ Theorem read_all_reads : forall fuel acc r w, pinv (rsp r) -> bytes_ok (remainin
   | Ok (k, acc', r') w' =>
       exists bs lost, acc' = acc ++ bs /\ acct [] r w (bs ++ lost) r' w' /\
         (k = 0 -> lost = [] /\ eos (abs (rsp r')) /\ stream_buffer (rsp r') = []) /\
-        (k = EK_Aborted -> err_at (abs (rsp r')) EAbortRequest) /\
+        (k = EK_Aborted -> (err_at (abs (rsp r')) EAbortRequest /\ raborted r' = true) \/ fault_of EK_Aborted (wscript w)) /\
         (rwriteable r = true -> rwriteable r' = true) /\
         (rwriteable r' = true -> rwriteable r = true \/ is_final_stream r = true)
   | Halt o w' => exists bs r', acct [] r w bs r' w'
@@ -1418,16 +1532,19 @@ Proof.
       destruct (read_all maxc f (acc ++ b) r1 w1) as [[[k acc'] r2] w2|o w2].
       * destruct IH as (bs & lost & I1 & I2 & I3 & I4 & I5 & I6). exists (b ++ bs), lost.
         split; [rewrite I1, app_assoc; reflexivity|]. split; [rewrite <- app_assoc; eapply acct_trans0; eassumption|].
-        split; [exact I3|]. split; [exact I4|]. split; [intros H; apply I5; apply WR; exact H|].
+        split; [exact I3|]. split; [intros Hk; destruct (I4 Hk) as [I4'|I4']; [left; exact I4'|right];
+                                      eapply fault_of_suffix; [apply (ac_ws _ _ _ _ _ _ A)|exact I4']|].
+        split; [intros H; apply I5; apply WR; exact H|].
         intros H. destruct (I6 H) as [H1|H1]; [apply WR; exact H1|right].
         rewrite <- H1. symmetry. apply is_final_stream_eq; [apply (ac_req _ _ _ _ _ _ A)|apply (ac_stream _ _ _ _ _ _ A)].
       * destruct IH as (bs & r2 & I2). exists (b ++ bs), r2. eapply acct_trans0; eassumption.
   - destruct AI as (dl & A & C & W). exists [], dl. split; [rewrite app_nil_r; reflexivity|]. split; [exact A|].
     assert (Hk : k <> 0).
-    { cbn [pi_case] in C. destruct C as [(e & C1 & _ & [->|[v ->]] & _)|[(_ & C1 & _)|(_ & [C1|C1])]]; subst k; discriminate. }
+    { cbn [pi_case] in C. destruct C as [(e & C1 & _ & [->|[v ->]] & _)|[(_ & C1 & _)|(_ & [C1|[C1|C1]] & _)]]; subst k; discriminate. }
     split; [intros H; contradiction|]. split.
-    + intros ->. cbn [pi_case] in C. destruct C as [(e & C1 & C2 & _)|[(_ & C1 & _)|(_ & [C1|C1])]]; try discriminate C1.
-      symmetry in C1. apply perr_kind_aborted in C1. subst e. exact C2.
+    + intros ->. cbn [pi_case] in C. destruct C as [(e & C1 & C2 & _ & _ & _ & C6)|[(_ & C1 & _)|(_ & _ & _ & C4)]]; try discriminate C1.
+      * symmetry in C1. apply perr_kind_aborted in C1. subst e. left. split; [exact C2|]. rewrite C6. apply orb_true_r.
+      * right. apply C4. discriminate.
     + rewrite W. cbn [is_inl]. rewrite andb_false_r, orb_false_r. split; [intros H; exact H|intros H; left; exact H].
   - destruct AI as (r1' & A & _). exists [], r1'. exact A.
 Qed.
@@ -1508,7 +1625,8 @@ Inductive rd_script : list N -> Prop :=
 | RS_set s rest : rd_script rest -> rd_script (4 :: s :: rest)
 | RS_wr rest : rd_script rest -> rd_script (5 :: rest)
 | RS_exit d c rest : rd_script (8 :: d :: c :: rest)
-| RS_fail k rest : rd_script (9 :: k :: rest).
+| RS_fail k rest : rd_script (9 :: k :: rest)
+| RS_readq n rest : rd_script rest -> rd_script (10 :: n :: rest).
 
 (* the observations are those of the script's operations, in order (a prefix, if the task stops early) *)
 Inductive obs_of : list N -> list obs -> Prop :=
@@ -1519,13 +1637,27 @@ Inductive obs_of : list N -> list obs -> Prop :=
 | OO_fill k rest c seen t : obs_of rest t -> obs_of (3 :: k :: rest) (OFill c seen :: t)
 | OO_fill_err k rest e t : obs_of rest t -> obs_of (3 :: k :: rest) (OFillErr e :: t)
 | OO_set s rest code t : obs_of rest t -> obs_of (4 :: s :: rest) (OSet code :: t)
-| OO_wr rest e wr code t : obs_of rest t -> obs_of (5 :: rest) (OWr e wr code :: t).
+| OO_wr rest e wr code t : obs_of rest t -> obs_of (5 :: rest) (OWr e wr code :: t)
+(* 10 n: read(buf)?  -- observed like 1 n; a read error ends the run *)
+| OO_readq n rest c b t : obs_of rest t -> obs_of (10 :: n :: rest) (ORead c b :: t)
+| OO_readq_err n rest k l : obs_of (10 :: n :: rest) [OReadErr k l].
+
+(* how the event log of a returning handler ends: the event of the return operation (8 / 9 / end of the script), or
+   nothing more when the error of a `read(buf)?` (10 n) was propagated: then that error is the result *)
+Definition fin_ok (fin : list (list N)) (os : list obs) (st : N * N + N) : Prop :=
+  (exists e, fin = [e]) \/ (fin = [] /\ exists k lost os', os = os' ++ [OReadErr k lost] /\ st = inr k).
+
+Lemma fin_ok_cons fin o os st : fin_ok fin os st -> fin_ok fin (o :: os) st.
+Proof.
+  intros [H|(H & k & lost & os' & E & Hst)]; [left; exact H|right]. split; [exact H|].
+  exists k, lost, (o :: os'). split; [rewrite E; reflexivity|exact Hst].
+Qed.
 
 Definition hr_post (script : list N) (a0 : ast) (u0 : bytes) (r : rstate) (w : world) (x : res ((N * N + N) * rstate)) : Prop :=
   exists os, obs_of script os /\
   match x with
   | Ok (st, r') w' =>
-      (exists fin, events w' = fin :: flat_map obs_events (rev os) ++ events w) /\ pinv (rsp r') /\
+      (exists fin, events w' = fin ++ flat_map obs_events (rev os) ++ events w /\ fin_ok fin os st) /\ pinv (rsp r') /\
       sreq (rsp r') = sreq (rsp r) /\
       tlaw a0 u0 (stream (rsp r)) (K (abs (rsp r)) (remaining w)) os (K (abs (rsp r')) (remaining w'))
   | Halt o w' =>
@@ -1599,7 +1731,7 @@ Proof.
   assert (Hfm : flat_map obs_events (rev (o :: os)) ++ events w = flat_map obs_events (rev os) ++ events w1).
   { cbn [rev]. rewrite flat_map_app. cbn [flat_map]. rewrite app_nil_r, <- app_assoc, Hev. reflexivity. }
   destruct x as [[st r'] w'|ox w'].
-  - destruct H as ((fin & H1) & H2 & H3 & H4). split; [exists fin; rewrite Hfm; exact H1|]. split; [exact H2|].
+  - destruct H as ((fin & H1 & Hfin) & H2 & H3 & H4). split; [exists fin; rewrite Hfm; split; [exact H1|apply fin_ok_cons; exact Hfin]|]. split; [exact H2|].
     split; [rewrite H3; exact Hq|]. apply HT. exact H4.
   - destruct H as (H1 & T' & H2). split; [rewrite Hfm; exact H1|]. exists T'. apply HT. exact H2.
 Qed.
@@ -1617,7 +1749,7 @@ Proof. destruct a; cbn [optN_eqb]; [apply N.eqb_refl|reflexivity]. Qed.
 
 (* set_stream in the trace law *)
 Lemma switch_law a0 u0 r w s p1 : pinv (rsp r) -> later_kept a0 u0 r w -> set_stream (rsp r) s = SetOk p1 ->
-  (forall wr lk, later_kept a0 u0 (mkR p1 wr lk) w) /\
+  (forall wr lk ab, later_kept a0 u0 (mkR p1 wr lk ab) w) /\
   (forall t T', tlaw a0 u0 s (K (abs p1) (remaining w)) t T' ->
       if optN_eqb s (stream (rsp r)) then tlaw a0 u0 (stream (rsp r)) (K (abs (rsp r)) (remaining w)) t T'
       else tlaw a0 u0 s (F s a0 u0) t T').
@@ -1626,14 +1758,14 @@ Proof.
   destruct (set_stream_step _ _ _ Hinv ES) as (I1 & Q1 & S1 & _ & _ & _ & _ & _ & SAME & DIFF).
   destruct (optN_eqb s (stream (rsp r))) eqn:Heq.
   - specialize (SAME eq_refl). subst p1. apply optN_eqb_eq in Heq. subst s.
-    split; [intros wr lk; exact J|intros t T' H; exact H].
+    split; [intros wr lk ab; exact J|intros t T' H; exact H].
   - destruct (DIFF eq_refl) as [_ HK].
     destruct (switch_later _ _ _ ES Heq) as [->|(sg & -> & Hl)].
     + split.
-      * intros wr lk sg Hl. unfold later_stream in Hl. cbn [abs a_stream rsp] in Hl. rewrite S1 in Hl. contradiction.
+      * intros wr lk ab sg Hl. unfold later_stream in Hl. cbn [abs a_stream rsp] in Hl. rewrite S1 in Hl. contradiction.
       * intros t T' H. rewrite HK in H. rewrite !F_none in *. exact H.
     + split.
-      * intros wr lk sg2 Hl2. exfalso. unfold later_stream in Hl, Hl2. cbn [abs a_stream a_req rsp] in Hl, Hl2.
+      * intros wr lk ab sg2 Hl2. exfalso. unfold later_stream in Hl, Hl2. cbn [abs a_stream a_req rsp] in Hl, Hl2.
         rewrite S1, Q1 in Hl2. destruct (stream (rsp r)) as [c|]; [|contradiction].
         apply (later_chain_absurd _ _ _ _ Hl Hl2).
       * intros t T' H. rewrite HK, (J sg Hl) in H. exact H.
@@ -1645,8 +1777,8 @@ Proof.
   intros Hinv Hrem E. unfold do_writeable in E. destruct (rwriteable r); [discriminate E|].
   destruct (set_stream (rsp r) _) as [p1| |] eqn:ES; try (injection E as _ <-; reflexivity).
   destruct (set_stream_step _ _ _ Hinv ES) as (I1 & _).
-  pose proof (await_input_reads (io_fuel w 0) None (mkR p1 false (rlock r)) w I1 Hrem) as AI.
-  destruct (await_input maxc (io_fuel w 0) None (mkR p1 false (rlock r)) w) as [[[x|k] r2] w2|o2 w2]; try discriminate E.
+  pose proof (await_input_reads (io_fuel w 0) None (mkR p1 false (rlock r) (raborted r)) w I1 Hrem) as AI.
+  destruct (await_input maxc (io_fuel w 0) None (mkR p1 false (rlock r) (raborted r)) w) as [[[x|k] r2] w2|o2 w2]; try discriminate E.
   injection E as _ <-. cbn [ai_post] in AI. destruct AI as (r2 & A & _). apply (ac_ev _ _ _ _ _ _ A).
 Qed.
 
@@ -1656,11 +1788,11 @@ Theorem run_handler_reads a0 u0 script : rd_script script ->
   forall f r w, pinv (rsp r) -> bytes_ok (remaining w) -> later_kept a0 u0 r w ->
   hr_post script a0 u0 r w (run_handler maxc f script r w).
 Proof.
-  induction 1 as [|n rest H IH|rest H IH|k rest H IH|s rest H IH|rest H IH|d c rest|k rest];
+  induction 1 as [|n rest H IH|rest H IH|k rest H IH|s rest H IH|rest H IH|d c rest|k rest|n rest H IH];
     intros f r w Hinv Hrem J;
     (destruct f as [|f]; [exists []; split; [constructor|]; cbn [run_handler rev flat_map app tlaw]; split; [reflexivity|eexists; reflexivity]|]);
     cbn [run_handler].
-  - exists []. split; [constructor|]. split; [exists [8]; reflexivity|]. split; [exact Hinv|]. split; reflexivity.
+  - exists []. split; [constructor|]. split; [exists [[8]]; split; [reflexivity|left; eexists; reflexivity]|]. split; [exact Hinv|]. split; reflexivity.
   - (* 1 n *)
     pose proof (await_input_reads (io_fuel w 0) (Some n) r w Hinv Hrem) as AI.
     destruct (await_input maxc (io_fuel w 0) (Some n) r w) as [[[[c b]|k] r1] w1|o w1]; cbn [ai_post] in AI.
@@ -1700,7 +1832,7 @@ Proof.
       pose proof (consume_acct r1 w1 cc (rwriteable r1) (rlock r1) (ac_inv _ _ _ _ _ _ A)) as A2. fold seen in A2.
       replace (N.min cc (len seen)) with cc in A2 by (subst cc; lia).
       pose proof (acct_trans0 _ _ _ _ _ _ _ _ A A2) as A3. cbn [app] in A3.
-      apply (hr_post_cons _ rest a0 u0 r w (OFill cc seen) (mkR (consume_stream (rsp r1) cc) (rwriteable r1) (rlock r1))
+      apply (hr_post_cons _ rest a0 u0 r w (OFill cc seen) (mkR (consume_stream (rsp r1) cc) (rwriteable r1) (rlock r1) (raborted r1))
                (w_ev (w_ev w1 [3; 1; cc]) seen)); [intros t Ht; constructor; exact Ht| | | |].
       * cbn [obs_events w_ev events app]. rewrite (ac_ev _ _ _ _ _ _ A). reflexivity.
       * apply (ac_req _ _ _ _ _ _ A3).
@@ -1724,7 +1856,7 @@ Proof.
       try (exists []; split; [constructor|]; cbn [rev flat_map app tlaw]; split; [reflexivity|eexists; reflexivity]).
     destruct (set_stream_step _ _ _ Hinv ES) as (I1 & Q1 & S1 & _).
     destruct (switch_law a0 u0 r w (Some s) p1 Hinv J ES) as [J1 SW].
-    apply (hr_post_cons _ rest a0 u0 r w (OSet (stream_code (stream p1))) (mkR p1 (rwriteable r) (rlock r))
+    apply (hr_post_cons _ rest a0 u0 r w (OSet (stream_code (stream p1))) (mkR p1 (rwriteable r) (rlock r) (raborted r))
              (w_ev w [4; stream_code (stream p1)])); [intros t Ht; constructor; exact Ht| | | |].
     + reflexivity.
     + exact Q1.
@@ -1755,9 +1887,84 @@ Proof.
         rewrite (code_stream_code _ (pinv_stream_ok _ (ac_inv _ _ _ _ _ _ A))), S.
         apply SW. rewrite S in HT. rewrite HK. exact HT.
       * apply IH; [apply (ac_inv _ _ _ _ _ _ A)|exact (acct_bytes_ok _ _ _ _ _ _ A Hrem)|].
-        exact (later_kept_acct _ _ _ _ _ _ _ A (J1 false (rlock r))).
-  - exists []. split; [constructor|]. split; [exists [8]; reflexivity|]. split; [exact Hinv|]. split; reflexivity.
-  - exists []. split; [constructor|]. split; [exists [9]; reflexivity|]. split; [exact Hinv|]. split; reflexivity.
+        exact (later_kept_acct _ _ _ _ _ _ _ A (J1 false (rlock r) (raborted r))).
+  - exists []. split; [constructor|]. split; [exists [[8]]; split; [reflexivity|left; eexists; reflexivity]|]. split; [exact Hinv|]. split; reflexivity.
+  - exists []. split; [constructor|]. split; [exists [[9]]; split; [reflexivity|left; eexists; reflexivity]|]. split; [exact Hinv|]. split; reflexivity.
+  - (* 10 n *)
+    pose proof (await_input_reads (io_fuel w 0) (Some n) r w Hinv Hrem) as AI.
+    destruct (await_input maxc (io_fuel w 0) (Some n) r w) as [[[[c b]|k] r1] w1|o w1]; cbn [ai_post] in AI.
+    + destruct AI as (dl & A & C & _). cbn [pi_case] in C. destruct C as (-> & _).
+      apply (hr_post_cons _ rest a0 u0 r w (ORead c b) r1 (w_ev (w_ev w1 [1; 1; c]) b)); [intros t Ht; constructor; exact Ht| | | |].
+      * cbn [obs_events w_ev events app]. rewrite (ac_ev _ _ _ _ _ _ A). reflexivity.
+      * apply (ac_req _ _ _ _ _ _ A).
+      * intros t T' HT. rewrite (ac_stream _ _ _ _ _ _ A) in HT.
+        apply (tlaw_bytes a0 u0 _ _ _ (K (abs (rsp r1)) (remaining w1))); [reflexivity|exact (ac_K _ _ _ _ _ _ A)|exact HT].
+      * apply IH; [apply (ac_inv _ _ _ _ _ _ A)|exact (acct_bytes_ok _ _ _ _ _ _ A Hrem)|exact (later_kept_acct _ _ _ _ _ _ _ A J)].
+    + (* the read error is the handler's result *)
+      destruct AI as (dl & A & C & _). exists [OReadErr k dl]. split; [apply OO_readq_err|].
+      split; [exists []; split; [cbn [rev flat_map obs_events w_ev events app]; rewrite (ac_ev _ _ _ _ _ _ A); reflexivity|]|].
+      { right. split; [reflexivity|]. exists k, dl, []. split; reflexivity. }
+      split; [apply (ac_inv _ _ _ _ _ _ A)|]. split; [apply (ac_req _ _ _ _ _ _ A)|].
+      apply (tlaw_bytes a0 u0 _ _ _ (K (abs (rsp r1)) (remaining w1))); [reflexivity|exact (ac_K _ _ _ _ _ _ A)|reflexivity].
+    + destruct AI as (r1 & A & _). exists []. split; [constructor|]. cbn [rev flat_map app tlaw].
+      split; [apply (ac_ev _ _ _ _ _ _ A)|eexists; reflexivity].
+Qed.
+
+(* ---- Request.aborted along the awaited read and along a whole handler: it is set only by a read that returns the
+   parser's AbortRequest, and once set it stays set (for every script, writes included) ---- *)
+Lemma await_input_raborted : forall fuel dest r w res r' w', await_input maxc fuel dest r w = Ok (res, r') w' ->
+  raborted r' = raborted r \/ (raborted r' = true /\ res = inr EK_Aborted).
+Proof.
+  induction fuel as [|f IH]; intros dest r w res r' w' E; [discriminate E|].
+  cbn [await_input] in E.
+  destruct (poll_input maxc (io_fuel w (len (buffer (rsp r)))) dest r w) as [[p r1] w1] eqn:EP.
+  pose proof (poll_input_raborted _ _ _ _ _ _ _ EP) as H.
+  destruct p as [x| |].
+  - injection E as <- <- <-. destruct H as [H|[H1 H2]]; [left; exact H|right]. split; [exact H1|]. injection H2 as ->. reflexivity.
+  - destruct H as [H|[_ H]]; [|discriminate H]. unfold on_wake in E. cbn [andb] in E. apply IH in E. rewrite H in E. exact E.
+  - destruct H as [H|[_ H]]; [|discriminate H]. unfold on_block in E.
+    destruct (negb (stop_at w1 =? 0) && negb (stopped w1)); [|discriminate E]. apply IH in E. rewrite H in E. exact E.
+Qed.
+
+Corollary await_input_raborted_mono fuel dest r w res r' w' : await_input maxc fuel dest r w = Ok (res, r') w' ->
+  raborted r = true -> raborted r' = true.
+Proof. intros E H. destruct (await_input_raborted _ _ _ _ _ _ _ E) as [H1|[H1 _]]; [rewrite H1; exact H|exact H1]. Qed.
+
+Lemma read_all_raborted_mono : forall fuel acc r w k acc' r' w', read_all maxc fuel acc r w = Ok (k, acc', r') w' ->
+  raborted r = true -> raborted r' = true.
+Proof.
+  induction fuel as [|f IH]; intros acc r w k acc' r' w' E H; [discriminate E|].
+  cbn [read_all] in E. destruct (await_input maxc (io_fuel w 0) (Some 64) r w) as [[[[n b]|e] r1] w1|o w1] eqn:EA; [| |discriminate E].
+  - pose proof (await_input_raborted_mono _ _ _ _ _ _ _ EA H) as H1.
+    destruct (n =? 0); [injection E as _ _ <- _; exact H1|]. apply (IH _ _ _ _ _ _ _ E H1).
+  - injection E as _ _ <- _. apply (await_input_raborted_mono _ _ _ _ _ _ _ EA H).
+Qed.
+
+Lemma do_writeable_raborted_mono r w e r' w' : do_writeable maxc r w = Ok (e, r') w' -> raborted r = true -> raborted r' = true.
+Proof.
+  unfold do_writeable. intros E H. destruct (rwriteable r); [injection E as _ <- _; exact H|].
+  destruct (set_stream (rsp r) _) as [p1| |]; try discriminate E.
+  destruct (await_input maxc (io_fuel w 0) None (mkR p1 false (rlock r) (raborted r)) w) as [[[x|k] r2] w2|o2 w2] eqn:EA;
+    try discriminate E; injection E as _ <- _; apply (await_input_raborted_mono _ _ _ _ _ _ _ EA H).
+Qed.
+
+Ltac ab_leaf H :=
+  cbn [raborted];
+  first [ exact H
+        | eapply await_input_raborted_mono; [eassumption|exact H]
+        | eapply read_all_raborted_mono; [eassumption|exact H]
+        | eapply do_writeable_raborted_mono; [eassumption|exact H] ].
+
+Theorem run_handler_raborted_mono : forall f script r w st r' w', run_handler maxc f script r w = Ok (st, r') w' ->
+  raborted r = true -> raborted r' = true.
+Proof.
+  induction f as [|f IH]; intros script r w st r' w' E H; [discriminate E|].
+  cbn [run_handler] in E. cbv zeta in E.
+  repeat match type of E with
+         | context [match ?x with _ => _ end] => destruct x eqn:?
+         end;
+    try discriminate E;
+    first [ injection E as _ <- _; ab_leaf H | apply IH in E; [exact E|ab_leaf H] ].
 Qed.
 
 (* ---- the trace law spelled out ---- *)
@@ -1789,15 +1996,16 @@ Inductive rd_only : list N -> Prop :=
 | RO_all rest : rd_only rest -> rd_only (2 :: rest)
 | RO_fill k rest : rd_only rest -> rd_only (3 :: k :: rest)
 | RO_exit d c rest : rd_only (8 :: d :: c :: rest)
-| RO_fail k rest : rd_only (9 :: k :: rest).
+| RO_fail k rest : rd_only (9 :: k :: rest)
+| RO_readq n rest : rd_only rest -> rd_only (10 :: n :: rest).
 
 Lemma rd_only_rd_script script : rd_only script -> rd_script script.
 Proof. induction 1; constructor; assumption. Qed.
 
 Lemma rd_only_obs script os : rd_only script -> obs_of script os -> Forall (fun o => obs_switch o = None) os.
 Proof.
-  intros H. revert os. induction H as [|n rest H IH|rest H IH|k rest H IH|d c rest|k rest]; intros os Ho;
-    inversion Ho; subst; try constructor; try reflexivity; try (apply IH; assumption).
+  intros H. revert os. induction H as [|n rest H IH|rest H IH|k rest H IH|d c rest|k rest|n rest H IH]; intros os Ho;
+    inversion Ho; subst; try constructor; try reflexivity; try (apply IH; assumption); try constructor.
 Qed.
 
 (* item 1 (C09) along a handler that only reads: the bytes observed, in order, followed by what is still to come,
@@ -1805,7 +2013,7 @@ Qed.
 Theorem run_handler_read_only script f r w : rd_only script -> pinv (rsp r) -> bytes_ok (remaining w) ->
   match run_handler maxc f script r w with
   | Ok (st, r') w' =>
-      exists os fin, obs_of script os /\ events w' = fin :: flat_map obs_events (rev os) ++ events w /\
+      exists os fin, obs_of script os /\ events w' = fin ++ flat_map obs_events (rev os) ++ events w /\ fin_ok fin os st /\
         K (abs (rsp r)) (remaining w) = flat_map obs_bytes os ++ K (abs (rsp r')) (remaining w')
   | Halt o w' =>
       exists os rest, obs_of script os /\ events w' = flat_map obs_events (rev os) ++ events w /\
@@ -1816,7 +2024,7 @@ Proof.
   pose proof (run_handler_reads (abs (rsp r)) (remaining w) script (rd_only_rd_script _ Hs) f r w Hinv Hrem
                 ltac:(intros sg _; reflexivity)) as H.
   destruct (run_handler maxc f script r w) as [[st r'] w'|o w']; destruct H as (os & Ho & H).
-  - destruct H as ((fin & H1) & _ & _ & H4). exists os, fin. split; [exact Ho|]. split; [exact H1|].
+  - destruct H as ((fin & H1 & Hfin) & _ & _ & H4). exists os, fin. split; [exact Ho|]. split; [exact H1|]. split; [exact Hfin|].
     apply (tlaw_reads _ _ _ _ _ _ (rd_only_obs _ _ Hs Ho) H4).
   - destruct H as (H1 & T' & H2). exists os, T'. split; [exact Ho|]. split; [exact H1|].
     apply (tlaw_reads _ _ _ _ _ _ (rd_only_obs _ _ Hs Ho) H2).
@@ -1881,7 +2089,7 @@ Theorem await_input_sticky e : forall fuel dest r w, pinv (rsp r) -> bytes_ok (r
   | Ok (res, r') w' =>
       remaining w' = remaining w /\ rscript w' = rscript w /\ pinv (rsp r') /\ err_at (abs (rsp r')) e /\
       (poll_parses dest r = true ->
-         exists k, res = inr k /\ (k = perr_kind e \/ k = EK_WriteZero \/ k = EK_Transport)) /\
+         exists k, res = inr k /\ (k = perr_kind e \/ fault_of k (wscript w))) /\
       (poll_parses dest r = false -> w' = w /\ exists x, res = inl x)
   | Halt o w' => o = OFuel
   end.
@@ -1901,7 +2109,9 @@ Proof.
       destruct (await_input maxc f dest r1 (w_bump w1)) as [[res r2] w2|o w2]; [|exact IH].
       destruct IH as (I1 & I2 & I3 & I4 & I5 & I6).
       split; [rewrite I1; exact S1|]. split; [rewrite I2; exact S2|]. split; [exact I3|]. split; [exact I4|].
-      rewrite (poll_parses_eq dest r1 r Esb), Epp in I5. split; [exact I5|discriminate].
+      rewrite (poll_parses_eq dest r1 r Esb), Epp in I5. split; [|discriminate].
+      intros Ht. destruct (I5 Ht) as (k & Hk1 & Hk2). exists k. split; [exact Hk1|].
+      destruct Hk2 as [Hk2|Hk2]; [left; exact Hk2|right]. eapply fault_of_suffix; [apply (ac_ws _ _ _ _ _ _ A)|exact Hk2].
   - destruct (S7 eq_refl) as [S8 ->]. destruct p as [[x|k]| |]; try discriminate S8.
     split; [reflexivity|]. split; [reflexivity|]. split; [exact S3|]. split; [exact S4|]. split; [discriminate|].
     intros _. split; [reflexivity|]. exists x. reflexivity.
@@ -1915,7 +2125,7 @@ Theorem await_input_eof c : 0 < c -> forall fuel r w, pinv (rsp r) -> at_term (a
   | Ok (res, r') w' =>
       remaining w' = remaining w /\ rscript w' = rscript w /\ pinv (rsp r') /\
       at_term (abs (rsp r')) = true /\ stream_buffer (rsp r') = [] /\
-      (res = inl (0, []) \/ exists k, res = inr k /\ (k = EK_WriteZero \/ k = EK_Transport))
+      (res = inl (0, []) \/ exists k, res = inr k /\ (k = EK_WriteZero \/ k = EK_Transport \/ k = EK_Aborted))
   | Halt o w' => o = OFuel
   end.
 Proof.
@@ -1927,7 +2137,7 @@ Proof.
   - destruct S6 as [-> ->]. split; [exact S1|]. split; [exact S2|]. split; [exact S3|]. split; [exact S4|].
     split; [exact S5|left; reflexivity].
   - split; [exact S1|]. split; [exact S2|]. split; [exact S3|]. split; [exact S4|]. split; [exact S5|].
-    right. exists k. split; [reflexivity|apply S6].
+    right. exists k. split; [reflexivity|eapply fault_of_kind; apply S6].
   - unfold on_wake. cbn [andb]. specialize (IH r1 (w_bump w1) S3 S4 S5).
     destruct (await_input maxc f (Some c) r1 (w_bump w1)) as [[res r2] w2|o w2]; [|exact IH].
     destruct IH as (I1 & I2 & I3 & I4 & I5 & I6).
@@ -1968,7 +2178,7 @@ Proof.
     destruct (await_read (io_fuel w 0) false (sinput_space (compress p1)) w) as [[b|k] w1|o w1]; [| discriminate E1|].
     - destruct AR as (A1 & A2 & A3 & A4 & _). destruct b as [|x b]; [discriminate E1|].
       rewrite A3 in Hrem. apply bytes_ok_app in Hrem.
-      destruct (IH (x :: b) (mkR (compress p1) (rwriteable r) (rlock r)) w1 w' I2 (proj1 Hrem) A4 (proj2 Hrem) E1)
+      destruct (IH (x :: b) (mkR (compress p1) (rwriteable r) (rlock r) (raborted r)) w1 w' I2 (proj1 Hrem) A4 (proj2 Hrem) E1)
         as (G & L & p' & P1 & P2 & P3 & P4).
       split; [exact G|]. split; [rewrite L; exact A1|]. exists p'. split; [exact P1|]. split; [exact P2|].
       cbn [rsp] in P3, P4. split; [rewrite P3; apply SO|]. rewrite A3, HR. exact P4.
@@ -2119,10 +2329,10 @@ Qed.
    copied into the caller's buffer; they are gone (K drops from "abc" to nothing, nothing was delivered).
    [poll_input_reads] accounts for them as [dl] with len dl <= c. *)
 Example ex_lost_bytes :
-  let r := mkR ex_resp true false in let w := ex_w ex_stdin_abort in
+  let r := mkR ex_resp true false false in let w := ex_w ex_stdin_abort in
   match poll_input 10 50 (Some 10) r w with
   | (PReady (inr k), r', w') => k = EK_Aborted /\ K (abs (rsp r)) (remaining w) = [97; 98; 99] /\
-                                K (abs (rsp r')) (remaining w') = [] /\ remaining w' = []
+                                K (abs (rsp r')) (remaining w') = [] /\ remaining w' = [] /\ raborted r' = true
   | _ => False
   end.
 Proof. vm_compute. repeat split; reflexivity. Qed.
@@ -2132,7 +2342,7 @@ Proof. vm_compute. repeat split; reflexivity. Qed.
    buffer, answers Ok(0), and is taken for end of file although 28 client bytes are still to come *)
 Definition ex_big_pair : bytes := [1;9;0;0;0;92;0;0] ++ [90;0] ++ repeatN 65 90.
 Example ex_full_buffer_eof :
-  match poll_input 10 200 (Some 10) (mkR ex_resp true false) (ex_w ex_big_pair) with
+  match poll_input 10 200 (Some 10) (mkR ex_resp true false false) (ex_w ex_big_pair) with
   | (PReady (inr k), r', w') => k = EK_UnexpectedEof /\ sinput_space (rsp r') = 0 /\ len (remaining w') = 28 /\
                                 payload_rem (rsp r') = 92
   | _ => False
@@ -2144,7 +2354,7 @@ Proof. vm_compute. repeat split; reflexivity. Qed.
    in the stream buffer and the gate closed; then writeable() returns Ok(()) and is_writeable() is still false
    (in the crate: a following output_stream() panics on its assertion).  See [do_writeable_gate], [do_writeable_stale]. *)
 Example ex_writeable_stale :
-  match run_handler 10 10 [4; 8; 3; 0] (mkR ex_filt false false) (ex_w ex_data_abort) with
+  match run_handler 10 10 [4; 8; 3; 0] (mkR ex_filt false false false) (ex_w ex_data_abort) with
   | Ok (_, r1) w1 =>
       rwriteable r1 = false /\ stream (rsp r1) = last_opt ROLE_Filter /\ stream_buffer (rsp r1) = [120; 121] /\
       events w1 = [[8]; []; [3; 0; EK_Aborted]; [4; 8]] /\
@@ -2159,7 +2369,7 @@ Proof. vm_compute. repeat split; reflexivity. Qed.
 (* a run in which the statements are about something: two reads of 2 bytes, the rest by read_to_end (the reply to
    GetValues is written on the way), then Data selected and read: each epoch delivers exactly its stream *)
 Example ex_epochs :
-  match run_handler 10 20 [1; 2; 1; 2; 2; 4; 8; 5; 2] (mkR ex_filt false false) (ex_w ex_two_streams) with
+  match run_handler 10 20 [1; 2; 1; 2; 2; 4; 8; 5; 2] (mkR ex_filt false false false) (ex_w ex_two_streams) with
   | Ok (_, r') w' =>
       rev (events w') = [[1; 1; 2]; [97; 98]; [1; 1; 2]; [99; 100]; [2; 0]; [101]; [4; 8]; [5; 0; 1; 8]; [2; 0]; [120; 121]; [8]] /\
       rwriteable r' = true /\ len (wlog w') = 32 /\
@@ -2170,10 +2380,29 @@ Proof. vm_compute. repeat split; reflexivity. Qed.
 
 (* end of file persists, and a zero-length read says nothing *)
 Example ex_eof :
-  match run_handler 10 20 [2; 1; 4; 1; 0; 1; 7] (mkR ex_resp true false) (ex_w ex_two_streams) with
+  match run_handler 10 20 [2; 1; 4; 1; 0; 1; 7] (mkR ex_resp true false false) (ex_w ex_two_streams) with
   | Ok (_, r') w' =>
       rev (events w') = [[2; 0]; [97; 98; 99; 100; 101]; [1; 1; 0]; []; [1; 1; 0]; []; [1; 1; 0]; []; [8]] /\
       at_term (abs (rsp r')) = true
+  | _ => False
+  end.
+Proof. vm_compute. repeat split; reflexivity. Qed.
+
+(* the two sources of the kind Aborted, seen by a handler that propagates read errors (10 n = read(buf)?):
+   the client's AbortRequest sets Request.aborted ... *)
+Example ex_abort_by_client :
+  match run_handler 10 20 [10; 2; 10; 9; 10; 2; 8; 0; 0] (mkR ex_resp true false false) (ex_w ex_stdin_abort) with
+  | Ok (st, r') w' => st = inr EK_Aborted /\ raborted r' = true /\ rev (events w') = [[1; 1; 2]; [97; 98]; [1; 0; EK_Aborted]; []]
+  | _ => False
+  end.
+Proof. vm_compute. repeat split; reflexivity. Qed.
+
+(* ... a transport write error of kind ConnectionAborted during the flush of the GetValues reply does not *)
+Example ex_abort_by_transport :
+  match run_handler 10 20 [10; 2; 10; 2; 10; 2; 10; 2; 8; 0; 0] (mkR ex_resp true false false)
+          (mkW [] [W_ERR_AB] [(0, 0, ex_two_streams)] [] 0 1 0 false false []) with
+  | Ok (st, r') w' => st = inr EK_Aborted /\ raborted r' = false /\ wlog w' = [] /\
+      rev (events w') = [[1; 1; 2]; [97; 98]; [1; 1; 2]; [99; 100]; [1; 1; 1]; [101]; [1; 0; EK_Aborted]; []]
   | _ => False
   end.
 Proof. vm_compute. repeat split; reflexivity. Qed.
@@ -2193,6 +2422,11 @@ Print Assumptions poll_input_sticky.
 Print Assumptions poll_input_eof.
 Print Assumptions poll_input_zero_is_eof.
 Print Assumptions poll_input_aborted.
+Print Assumptions poll_input_aborted_no_fault.
+Print Assumptions poll_input_sets_aborted.
+Print Assumptions poll_input_raborted.
+Print Assumptions await_input_raborted.
+Print Assumptions run_handler_raborted_mono.
 Print Assumptions boundary_loop_abort.
 Print Assumptions poll_input_gate.
 Print Assumptions await_input_sticky.
